@@ -324,6 +324,8 @@ def stmt_text(st) -> str:
         return '    ' + instr_text(st[1], st[2])
     if k == 'data':
         d = {1: '.byte', 2: '.2byte', 4: '.4byte', 8: '.8byte'}[st[1]]
+        if len(st) > 3 and st[3].get('as_string') is not None:
+            return f'    {d} ' + st[3]['quote'] + st[3]['as_string'] + st[3]['quote']
         return f'    {d} ' + ', '.join(expr_text(e) for e in st[2])
     if k == 'str':
         _, kind, q, text = st
